@@ -70,9 +70,27 @@ func c18Sequence(rep *Report, m *model.Client, r *rand.Rand, dir string, idx int
 			}
 			done := make(chan error, 1)
 			var f2 *txfile.File
+			waitVariant := r.Intn(6)
+			rep.count(fmt.Sprintf("open-wait/variant-%d", waitVariant), 1)
 			go func() {
 				o := good
 				o.Flags = txfile.FlagWaitLock
+				// the wait flag combined with the other options / flags an Open accepts (seeded change C18k: the
+				// options' normalisation drops the wait flag)
+				switch waitVariant {
+				case 1:
+					o.Flags |= txfile.FlagUpdMaxSize
+					o.MaxSize = 0
+				case 2:
+					o.Flags |= txfile.FlagUpdMaxSize
+					o.MaxSize = 256 * 1024
+				case 3:
+					o.Flags |= txfile.FlagUpdMaxSize | txfile.FlagUnboundMaxSize
+				case 4:
+					o.Readonly = true
+				case 5:
+					o.MaxSize = 0
+				}
 				var err error
 				f2, err = txfile.Open(path, 0o600, o)
 				done <- err
